@@ -57,7 +57,7 @@ def merge(reports):
         "evals": 0, "monitors": collections.Counter(), "classes": collections.Counter(),
         "paths": collections.Counter(), "events": collections.Counter(), "distinct": 0,
         "samples": [], "violations": [], "violation_count": 0, "vkeys": collections.Counter(), "exhaustive": [],
-        "notes": {}, "unavailable": [], "inconclusive": [], "fatal": [], "shard_wall_s": [], "lines": {},
+        "notes": {}, "unavailable": [], "inconclusive": [], "fatal": [], "shard_wall_s": [], "lines": {}, "waived": {},
     }
     for r in reports:
         if "fatal" in r:
@@ -81,6 +81,7 @@ def merge(reports):
                 m["unavailable"].append(u)
         m["inconclusive"].extend(r["inconclusive"])
         m["shard_wall_s"].append(r["wall_s"])
+        m["waived"].update(r.get("waived") or {})
         for fn, d in (r.get("lines") or {}).items():
             t = m["lines"].setdefault(fn, {"exec": set(), "all": set(), "file": d["file"]})
             t["exec"].update(d["exec"])
@@ -109,6 +110,7 @@ def write_evidence(pid, tier, seed, mod, m, wall, verdict, known_hit, extra_assu
         "exhaustive": False,
         "known_findings_hit": known_hit,
         "observer_unavailable": m["unavailable"],
+        "waived_input_classes": {k: v for k, v in m["waived"].items() if m["classes"].get(k, 0) == 0},
         "anchored_functions_line_coverage": line_cov,
         "anchored_lines_never_executed": line_missing,
         "inconclusive_reasons": m["inconclusive"] + [f.get("fatal", "") + ":" + f.get("detail", "") for f in m["fatal"]],
@@ -239,7 +241,7 @@ def main(argv=None):
             if m["monitors"].get(mon, 0) == 0:
                 inconclusive.append("deciding monitor %s was never evaluated" % mon)
         for cls in mod.required_classes(tier):
-            if m["classes"].get(cls, 0) == 0:
+            if m["classes"].get(cls, 0) == 0 and cls not in m["waived"]:
                 inconclusive.append("promised input class %s is empty" % cls)
 
     if unknown:
